@@ -25,11 +25,30 @@ type ignore struct {
 	ignoreNextLine ignoredRules
 	ignoreThisLine ignoredRules
 	ignoreRange    ignoredRules
+	// ignores of the enclosing statements, a statement inside of the ignored statement
+	// may have its own ignore comments and they must not cancel the enclosing ones
+	enclosing []enclosingIgnores
+}
+
+type enclosingIgnores struct {
+	nextLine ignoredRules
+	thisLine ignoredRules
 }
 
 type ignoredRules struct {
 	all   bool
 	rules map[Rule]bool
+}
+
+func (r ignoredRules) clone() ignoredRules {
+	c := ignoredRules{all: r.all}
+	if r.rules != nil {
+		c.rules = make(map[Rule]bool, len(r.rules))
+		for k, v := range r.rules {
+			c.rules[k] = v
+		}
+	}
+	return c
 }
 
 func ignoreRules(ignoredRules *ignoredRules, rules []Rule) {
@@ -41,7 +60,7 @@ func ignoreRules(ignoredRules *ignoredRules, rules []Rule) {
 		return
 	}
 
-	ignoredRules.all = false
+	// Keep ignoring all rules if already, listed rules are included in them
 	if ignoredRules.rules == nil {
 		ignoredRules.rules = make(map[Rule]bool)
 	}
@@ -95,6 +114,12 @@ func parseIgnoreComment(comment string) (string, []Rule) {
 // Then leading comments accept falco-ignore-next-line, falco-ignore-start, falco-ignore-end
 // trailing comments accept falco-ignore
 func (i *ignore) SetupStatement(meta *ast.Meta) {
+	// Keep the ignores of the enclosing statement, they are restored on teardown
+	i.enclosing = append(i.enclosing, enclosingIgnores{
+		nextLine: i.ignoreNextLine.clone(),
+		thisLine: i.ignoreThisLine.clone(),
+	})
+
 	// Find ignore signature in leading comments
 	for _, c := range meta.Leading {
 		switch ignoreType, rules := parseIgnoreComment(c.String()); ignoreType {
@@ -118,6 +143,14 @@ func (i *ignore) SetupStatement(meta *ast.Meta) {
 
 // Clean up common statements, declarations
 func (i *ignore) TeardownStatement(meta *ast.Meta) {
+	// Back to the ignores of the enclosing statement
+	if n := len(i.enclosing); n > 0 {
+		i.ignoreNextLine = i.enclosing[n-1].nextLine
+		i.ignoreThisLine = i.enclosing[n-1].thisLine
+		i.enclosing = i.enclosing[:n-1]
+		return
+	}
+
 	for _, c := range meta.Leading {
 		ignoreType, rules := parseIgnoreComment(c.String())
 		if ignoreType == falcoIgnoreNextLine {
